@@ -193,13 +193,16 @@ def exec_history(case: Dict[str, Any]) -> Dict[str, Any]:
                     snaps = reader.snapshots()
                     if snaps:
                         t.snapshot_manager.delete_snapshot(snaps[op["which"] % len(snaps)]["snapshot_id"])
-                elif kind == "open_tx":
-                    if len(open_txs) < 2:
-                        before = set(gcsim.list_tree(root))
-                        tx = t.new_transaction().begin()
-                        tx.append_data([{"x": next(counter)}])
-                        wrote = sorted(k for k in set(gcsim.list_tree(root)) - before if k.startswith("data/"))
-                        open_txs.append((tx, wrote))
+                elif kind in ("open_tx", "open_many"):
+                    # open_many: more live transactions than one listing page of the (fake) service holds, so that
+                    # protection of the later ones depends on the marker listing following continuation tokens
+                    for _k in range(op.get("n", 1)):
+                        if len(open_txs) < (2 if kind == "open_tx" else 10):
+                            before = set(gcsim.list_tree(root))
+                            tx = t.new_transaction().begin()
+                            tx.append_data([{"x": next(counter)}])
+                            wrote = sorted(k for k in set(gcsim.list_tree(root)) - before if k.startswith("data/"))
+                            open_txs.append((tx, wrote))
                 elif kind in ("commit_tx", "rollback_tx"):
                     if open_txs:
                         tx, _w = open_txs.pop(0)
@@ -349,7 +352,10 @@ def make_cases(ctx) -> List[Dict[str, Any]]:
                 seed = rng.randrange(1 << 40)
                 r = random.Random(seed)
                 length = r.randint(4, maxlen)
-                cases.append({"spelling": sp, "seed": seed, "ops": gen_ops(r, length, g), "base": os.path.join(ctx.scratch, f"h{n}")})
+                ops = gen_ops(r, length, g)
+                if rep == 0 and sp.startswith("s3:"):
+                    ops.insert(len(ops) - 1, {"op": "open_many", "n": 9})
+                cases.append({"spelling": sp, "seed": seed, "ops": ops, "base": os.path.join(ctx.scratch, f"h{n}")})
                 n += 1
     return cases
 
